@@ -420,9 +420,12 @@ func copyPresent(m map[int]bool) map[int]bool {
 // ---------- bufio.Scanner (line mode) over a modelled reader ----------
 
 type ScanVal struct {
-	Rest *Term
-	Tok  *Term
+	Rest   *Term  // bytes already pulled from the reader and not yet returned
+	Tok    *Term
+	Reader string // side-state key of the underlying bytes.Buffer rope ("" = fully consumed)
 }
+
+const scanChunk = 4096 // bufio.Scanner's initial buffer: the reader is drained in chunks of this size
 
 func init() {
 	reg("bufio.NewScanner", func(e *Engine, st *State, c *callCtx) bool {
@@ -439,10 +442,17 @@ func init() {
 		if !isRope && !strings.Contains(iv.T.String(), "bytes.Buffer") {
 			unsup("bufio.NewScanner over %s", iv.T)
 		}
-		rest := e.toSMTString(st, e.ropeString(st, r))
-		st.side[k] = RopeVal{} // the scanner consumes the reader
-		e.res.Assumptions["bufio.Scanner: line mode over an in-memory buffer, no carriage returns, lines below the token limit"]++
-		id := st.newObj(ScanVal{Rest: rest, Tok: KStr("")}, nil)
+		e.res.Assumptions["bufio.Scanner: line mode over an in-memory buffer read in 4096-byte chunks (symbolic content is read at once), no carriage returns, lines below the token limit"]++
+		content := e.toSMTString(st, e.ropeString(st, r))
+		sv := ScanVal{Rest: KStr(""), Tok: KStr(""), Reader: k}
+		if !content.K {
+			// symbolic content: read everything at once
+			sv.Rest, sv.Reader = content, ""
+			st.side[k] = RopeVal{}
+		} else {
+			st.side[k] = RopeVal{Segs: []Value{content}}
+		}
+		id := st.newObj(sv, nil)
 		c.ret(st, PtrVal{Obj: id})
 		return true
 	})
@@ -459,17 +469,46 @@ func init() {
 	}
 	reg("(*bufio.Scanner).Scan", func(e *Engine, st *State, c *callCtx) bool {
 		p, sv := scanOf(st, c)
-		set := func(s *State, rest, tok *Term) { s.heap[p.Obj] = &Obj{V: ScanVal{Rest: rest, Tok: tok}} }
+		set := func(s *State, rest, tok *Term, reader string) {
+			s.heap[p.Obj] = &Obj{V: ScanVal{Rest: rest, Tok: tok, Reader: reader}}
+		}
 		if sv.Rest.K {
-			if sv.Rest.Str == "" {
+			rest, reader := sv.Rest.Str, sv.Reader
+			// pull chunks from the reader until a full line is buffered or the reader is empty
+			for !strings.Contains(rest, "\n") && reader != "" {
+				r, _ := st.side[reader].(RopeVal)
+				content := ""
+				if len(r.Segs) > 0 {
+					ct := e.toSMTString(st, e.ropeString(st, r))
+					if !ct.K {
+						unsup("scanner over a buffer that became symbolic")
+					}
+					content = ct.Str
+				}
+				if content == "" {
+					reader = ""
+					break
+				}
+				n := scanChunk
+				if n > len(content) {
+					n = len(content)
+				}
+				rest += content[:n]
+				st.side[reader] = RopeVal{Segs: []Value{KStr(content[n:])}}
+				if n == len(content) {
+					st.side[reader] = RopeVal{}
+				}
+			}
+			if rest == "" {
+				set(st, KStr(""), sv.Tok, reader)
 				c.ret(st, tFalse)
 				return true
 			}
-			i := strings.IndexByte(sv.Rest.Str, '\n')
+			i := strings.IndexByte(rest, '\n')
 			if i < 0 {
-				set(st, KStr(""), KStr(strings.TrimSuffix(sv.Rest.Str, "\r")))
+				set(st, KStr(""), KStr(strings.TrimSuffix(rest, "\r")), reader)
 			} else {
-				set(st, KStr(sv.Rest.Str[i+1:]), KStr(strings.TrimSuffix(sv.Rest.Str[:i], "\r")))
+				set(st, KStr(rest[i+1:]), KStr(strings.TrimSuffix(rest[:i], "\r")), reader)
 			}
 			c.ret(st, tTrue)
 			return true
@@ -479,11 +518,11 @@ func init() {
 		return e.branch(st, []Alt{
 			{Cond: Eq(sv.Rest, KStr("")), Tag: "scan=eof", Do: func(s *State) { c.ret(s, tFalse) }},
 			{Cond: Ge(idx, KInt64(0)), Tag: "scan=line", Do: func(s *State) {
-				set(s, e.name(Substr(sv.Rest, Add(idx, KInt64(1)), Sub(ln, Add(idx, KInt64(1))))), e.name(Substr(sv.Rest, KInt64(0), idx)))
+				set(s, e.name(Substr(sv.Rest, Add(idx, KInt64(1)), Sub(ln, Add(idx, KInt64(1))))), e.name(Substr(sv.Rest, KInt64(0), idx)), sv.Reader)
 				c.ret(s, tTrue)
 			}},
 			{Cond: And(Not(Eq(sv.Rest, KStr(""))), Lt(idx, KInt64(0))), Tag: "scan=last", Do: func(s *State) {
-				set(s, KStr(""), sv.Rest)
+				set(s, KStr(""), sv.Rest, sv.Reader)
 				c.ret(s, tTrue)
 			}},
 		})
